@@ -1,4 +1,5 @@
 //! flv - executes scenarios on the real flexi_logger and records traces. It never judges.
+mod conc;
 mod flw;
 mod handler;
 mod obs;
@@ -66,19 +67,87 @@ fn main() {
                 let sc: Value = serde_json::from_str(&line).expect("scenario json");
                 // one thread per scenario: flexi_logger formats into a thread-local buffer that keeps
                 // stale bytes after a panic of the code under test; a fresh thread isolates scenarios
-                let n = std::thread::scope(|s| {
-                    s.spawn(|| {
-                        let mut ex = flw::Exec {
-                            out: &mut out,
-                            root: root.clone(),
-                            flush_each,
-                            prev_err: &mut prev_err,
-                        };
-                        flw::run_scenario(&sc, &mut ex)
+                let n = if flush_each {
+                    // (crash children: every event line must reach the file before the next step)
+                    std::thread::scope(|s| {
+                        s.spawn(|| {
+                            let mut ex = flw::Exec {
+                                out: &mut out,
+                                root: root.clone(),
+                                flush_each,
+                                prev_err: &mut prev_err,
+                            };
+                            flw::run_scenario(&sc, &mut ex)
+                        })
+                        .join()
+                        .unwrap_or(0)
                     })
-                    .join()
-                    .unwrap_or(0)
-                });
+                } else {
+                    // watchdog: the scenario thread writes into a shared buffer; if it makes no progress for
+                    // `--hang-secs` (default 30 s), a Hang event is recorded for it and the process exits with
+                    // status 5 (the driver restarts behind the scenario)
+                    let buf: std::sync::Arc<std::sync::Mutex<Vec<u8>>> = Default::default();
+                    let (tx, rx) = std::sync::mpsc::channel::<(usize, Option<PathBuf>)>();
+                    let (b2, sc2, root2, pe) = (buf.clone(), sc.clone(), root.clone(), prev_err.clone());
+                    std::thread::spawn(move || {
+                        struct W(std::sync::Arc<std::sync::Mutex<Vec<u8>>>);
+                        impl Write for W {
+                            fn write(&mut self, b: &[u8]) -> std::io::Result<usize> {
+                                self.0.lock().unwrap().extend_from_slice(b);
+                                Ok(b.len())
+                            }
+                            fn flush(&mut self) -> std::io::Result<()> {
+                                Ok(())
+                            }
+                        }
+                        let mut w = W(b2);
+                        let mut pe = pe;
+                        let n = {
+                            let mut ex = flw::Exec {
+                                out: &mut w,
+                                root: root2,
+                                flush_each: false,
+                                prev_err: &mut pe,
+                            };
+                            flw::run_scenario(&sc2, &mut ex)
+                        };
+                        tx.send((n, pe)).ok();
+                    });
+                    let hang_secs: u64 = arg_after(&args, "--hang-secs").and_then(|x| x.parse().ok()).unwrap_or(30);
+                    let mut last_len = 0usize;
+                    let n;
+                    loop {
+                        match rx.recv_timeout(std::time::Duration::from_secs(hang_secs)) {
+                            Ok((k, pe)) => {
+                                n = k;
+                                prev_err = pe;
+                                break;
+                            }
+                            Err(_) => {
+                                let cur = buf.lock().map(|b| b.len()).unwrap_or(usize::MAX);
+                                if cur != last_len && cur != usize::MAX {
+                                    last_len = cur; // still making progress
+                                    continue;
+                                }
+                                let partial = buf.lock().map(|b| b.clone()).unwrap_or_default();
+                                out.write_all(&partial).unwrap();
+                                let nlines = partial.iter().filter(|c| **c == b'\n').count();
+                                writeln!(
+                                    out,
+                                    "{}",
+                                    serde_json::json!({"sc": sc["sc"], "n": nlines + 1, "ev": "Hang", "ret": "hang", "retk": "hang",
+                                        "o": false, "errs": [], "inj": 0, "injp": [], "faultleft": 0, "t": 0, "tstr": ""})
+                                )
+                                .unwrap();
+                                out.flush().unwrap();
+                                println!("flw scenarios={scs} events={events} HANG");
+                                std::process::exit(5);
+                            }
+                        }
+                    }
+                    out.write_all(&buf.lock().unwrap()).unwrap();
+                    n
+                };
                 events += n;
                 scs += 1;
             }
@@ -88,6 +157,8 @@ fn main() {
             }
             println!("flw scenarios={scs} events={events}");
         }
+        "conc" => conc::run(&args),
+        "conc-child" => conc::run_child(&args),
         "spec" => specx::run(&args),
         "route" => route::run(&args),
         "route-child" => route::run_child(&args),
